@@ -29,6 +29,14 @@ claimed = {
          "The reader's full transition/flush/effect table and the writer's line grammar are extracted from the code and every hunk sequence (up to 3 hunks over all 75 hunk shapes the property names) is simulated against them: no loss, no rejection, right field per line. This is exhaustive over the finite line-kind abstraction; payload bytes are not decided.", "4 C02"),
  "C16": ("static analysis: type-switch arm table of NewJsonNode against the frozen yaml.v2 v2.4.0 / encoding/json dynamic type table, codec routing by call graph (R-CODEC), codec who-may-call (R-JSONCODEC)",
          "Decides only the structural part: every dynamic type either codec produces has a conversion arm to the right node type and each format is read/written through its own codec with default settings. Scalar quoting and float formatting are library behaviour on values and are not decided.", "4 C16"),
+ "C09": ("static analysis: path/taint rules on writePointer (R-PTR), op-literal pairing (R-PAIR), reverse traversal of same-index adds (R-REVADD)",
+         "Decides that the JSON Patch writer escapes every key, refuses inexpressible paths, never skips a path element, emits only test/remove/add with every remove guarded by an identical test, and orders same-index adds for an insert-before evaluator. Equivalence with an RFC 6902 evaluator on values (context test indices) is not decided.", "4 C09"),
+ "C10": ("static analysis: cut-set rule on the test+remove pairing (R-OPSUBSET), pointer-relation rule for context consumption (R-PARENT), token table (R-PTRREAD), coalescing order (R-PREPEND), context forwarding (R-FWD)",
+         "Decides the structural conditions under which the JSON Patch reader could be more permissive than the RFC: unchecked pairs, foreign ops, context tests taken from another array, context dropped on the way to a nested array. The index case analysis of the context inference is not decided.", "4 C10"),
+ "C11": ("static analysis: merge-strategy control dependence of hunk literals (R-MERGEHUNK diff side), void→null conversion and refusal of strict hunks in RenderMerge",
+         "Narrow claim: every hunk built under merge strategy is a merge hunk without removals, and RenderMerge converts deletions to null and refuses strict hunks. Agreement with the RFC 7386 algorithm on values is not decided.", "4 C11"),
+ "C12": ("static analysis: hunk-literal rule on readMergeInto (R-MERGEHUNK reader side), strategy selection in patchAll (R-FWD driver), descent rule R-DESCEND, path freshness",
+         "Narrow claim: every hunk read from a merge patch is a merge hunk with its own path, null becomes a deletion, merge strategy is selected exactly for such hunks, and a hunk whose path is not exhausted is always handed on (intermediate objects). Conformance with the RFC pseudo-code on values is not decided.", "4 C12"),
 }
 na = {}
 props = [json.loads(l) for l in open(os.path.join(V, "properties.jsonl"))]
